@@ -17,14 +17,15 @@ THEOREMS = ['C02_refract_unit', 'C02_refract_snell', 'C02_refract_halfspace', 'C
             'C02_propagate_length', 'C02_std_sag_dx', 'C02_std_sag_dy', 'C02_std_normal_is_gradient',
             'C02_ea_sag_is_conic_plus_poly', 'C02_ea_sag_dx', 'C02_ea_normal_is_gradient',
             'C02_refract_tir_nonfinite', 'C02_refract_lift', 'C02_reflect_lift',
-            'C02_globalize_localize', 'C02_localize_globalize', 'C02_recorded_point_in_surface_frame']
+            'C02_globalize_localize', 'C02_localize_globalize', 'C02_recorded_point_in_surface_frame',
+            'C02_conic_distance_sound_sheet', 'C02_sheet_is_sag_sheet']
 TRUSTED_BASE = BASE_TRUSTED + [
     'modelled, not verified: material.n(w) values are inputs of the trace model (C18 covers them)',
 ]
 RULE = ('kernel cases: seeded random unit directions/normals, index pairs in [1,4], radii of both signs, '
         'conics incl. 0/-1, axis-parallel rays (a==0 branch), misses and TIR (~15%); non-trivial = finite result')
 COQ_TARGETS = ['Model/Trace.vo']
-PARTIAL = ['conic sheet selection: the hit is proved to lie on the quadric; that it is the sag sheet is a hypothesis of std_normal_parallel_gradient']
+PARTIAL = []
 
 
 def kernel_cases(ctx):
